@@ -9,6 +9,7 @@ package main
 
 import (
 	"bufio"
+	"encoding/binary"
 	"encoding/hex"
 	"flag"
 	"fmt"
@@ -83,6 +84,24 @@ func main() {
 			blen = rng.Pick(r, []int{0, 3, 4, 5, 7, 8, 9})
 		}
 		buf := r.Bytes(blen)
+		if r.Intn(3) == 0 {
+			// prior contents related to the value about to be written: the same value, the same low or
+			// high word with the other word different, a neighbour
+			rv := v
+			switch r.Intn(5) {
+			case 1:
+				rv = v ^ (r.U64() << 32)
+			case 2:
+				rv = v ^ uint64(uint32(r.U64()))
+			case 3:
+				rv = v + 1
+			case 4:
+				rv = uint64(uint32(v)) | 0xdeadbeef00000000
+			}
+			var related [8]byte
+			binary.LittleEndian.PutUint64(related[:], rv)
+			copy(buf, related[:])
+		}
 		// half of the buffers are windows of a larger record (spare capacity on both sides):
 		// the length decides, not the capacity, and nothing outside the window may change
 		var record, recordBefore []byte
